@@ -159,4 +159,35 @@ func oracleDist(c *Case) CaseResult {
 	return res
 }
 
+// pinnedOutsideStepInvariant: the parameter of an aggregation is not visited by
+// PreprocessExpr, so a selector with @ (or start()/end()) in it is not wrapped
+// as step invariant; its offset is fixed for the window's start and the
+// selector is evaluated at T + (t - start) at step t - by the reference engine
+// as well (topk(scalar(foo @ 700), bar)).
+func pinnedOutsideStepInvariant(c *Case) bool {
+	expr, err := parser.ParseExpr(c.Query)
+	if err != nil {
+		return false
+	}
+	lp := logicalplan.New(expr, time.UnixMilli(c.Window.Start), time.UnixMilli(c.Window.End)).Expr()
+	found := false
+	var walk func(e parser.Expr, inside bool)
+	walk = func(e parser.Expr, inside bool) {
+		walkCustomShallow(e, func(x parser.Expr) bool {
+			switch n := x.(type) {
+			case *parser.StepInvariantExpr:
+				walk(n.Expr, true)
+				return false
+			case *parser.VectorSelector:
+				if !inside && (n.Timestamp != nil || n.StartOrEnd != 0) {
+					found = true
+				}
+			}
+			return true
+		})
+	}
+	walk(lp, false)
+	return found
+}
+
 var _ = promql.ErrValidationAtModifierDisabled
